@@ -49,6 +49,7 @@ class SimFS:
         self.raw_fds = {}
         self.read_faults = {}  # path -> kind: one-shot error when the file is opened for reading
         self.read_faults_fired = 0
+        self.read_delays = {}  # path -> seconds: one-shot slow read
         # fault machinery
         self.armed = False
         self.opno = 0
@@ -251,6 +252,15 @@ class SimFS:
                 raise OSError(errno.EIO if kind == "EIO" else errno.EMFILE, f"simulated {kind} on read", path)
             if path in self.unreadable:
                 raise PermissionError(errno.EACCES, "Permission denied", path)
+            if path in self.read_delays:
+                # a slow medium (network share, worn SD card): the read takes this long on the simulated clock
+                delay = self.read_delays.pop(path)
+                from . import kernel as _kernel  # pylint: disable=import-outside-toplevel
+                if _kernel.CURRENT is not None:
+                    _kernel.CURRENT.count("fault_slow_read")
+                    _kernel.CURRENT.sleep(delay)
+                # (the descriptor was opened before the wait: it keeps reading that inode even if the name
+                # has been renamed away or replaced meanwhile)
             raw = io.BytesIO(ino.cache)
             if binary:
                 return raw
